@@ -182,7 +182,7 @@ def checkHold (c : Case) (t : Transcript) : Option String :=
 once, in its mode); a failed `try` holds nothing, hands the key back and never blocked; a
 scoped closure runs exactly once iff the acquisition succeeded. -/
 def checkC04 (c : Case) (t : Transcript) : Option String := Id.run do
-  let C : Ctx := { W := c.world, colls := c.colls }
+  let C : Ctx := { W := c.world, colls := c.colls, outer := c.outer }
   let mut st : HSt := {}
   let segs := segments t.evs
   let mut i := 0
@@ -228,7 +228,7 @@ def checkC04 (c : Case) (t : Transcript) : Option String := Id.run do
 /-- C09: during a session on a retrying collection every blocking raw acquisition is issued
 while the caller holds nothing. -/
 def checkC09 (c : Case) (t : Transcript) : Option String := Id.run do
-  let C : Ctx := { W := c.world, colls := c.colls }
+  let C : Ctx := { W := c.world, colls := c.colls, outer := c.outer }
   let rec isRetryTop : Shape → Bool
     | .retry _ => true
     | .poisonable _ s => isRetryTop s
@@ -260,7 +260,7 @@ lock it holds belongs to a unit with a smaller address (or to the same owned uni
 discipline with rank = address, which is what makes two sorting acquisitions take their common
 locks in the same relative order. -/
 def checkC08 (c : Case) (t : Transcript) : Option String := Id.run do
-  let C : Ctx := { W := c.world, colls := c.colls }
+  let C : Ctx := { W := c.world, colls := c.colls, outer := c.outer }
   let rec isSortTop : Shape → Bool
     | .boxed _ | .refc _ | .owned _ _ => true      -- an owned collection on its own: one unit, listing order
     | .poisonable _ s => isSortTop s
@@ -345,7 +345,7 @@ held exclusively); a failed attempt leaves every lock as it was; a successful on
 by dropping the guard. Applies to cases whose program is `get, one try session, …`. -/
 def checkC13 (c : Case) (t : Transcript) : Option String := Id.run do
   if !c.script.isEmpty then return none
-  let C : Ctx := { W := c.world, colls := c.colls }
+  let C : Ctx := { W := c.world, colls := c.colls, outer := c.outer }
   let segs := segments t.evs
   let mut i := 0
   for s in c.prog do
@@ -514,7 +514,7 @@ collection containing it) since the last `clear_poison`; it may report poisoned 
 panic happened during a hold on it; `clear_poison` restores Ok. Observations: `isp` statements,
 Ok/Err outcome of sessions, final flags. -/
 def checkC10 (c : Case) (t : Transcript) : Option String := Id.run do
-  let C : Ctx := { W := c.world, colls := c.colls }
+  let C : Ctx := { W := c.world, colls := c.colls, outer := c.outer }
   let segs := segments t.evs
   let mut may : List PoisonId := []
   let mut must : List (PoisonId × String) := []
@@ -539,6 +539,11 @@ def checkC10 (c : Case) (t : Transcript) : Option String := Id.run do
           | none => pure ()
         let userPanic := hasMark seg mkUserPanic
         let fault := seg.any fun e => match e with | .raw _ _ .panic _ => true | _ => false
+        -- the call is made while the thread unwinds from an unrelated panic: `PoisonRef::drop` sees
+        -- `thread::panicking()` and poisons also when the guard goes away normally
+        if c.outer && (ses.api == .lock || ses.api == .tryLock) then
+          for p in ps do
+            if !may.contains p then may := p :: may
         -- `clear_poison()` inside the hold (the body ran: no raw fault in this segment)
         if !fault then
           for b in ses.body do
@@ -634,7 +639,7 @@ thread never waits for a lock it holds itself. By `C01_deadlock_free` this disci
 every thread, excludes deadlock under every interleaving. -/
 def checkC01 (c : Case) (t : Transcript) : Option String := Id.run do
   if t.terminal == "selfdeadlock" then return some "the thread waits for a lock it holds itself"
-  let C : Ctx := { W := c.world, colls := c.colls }
+  let C : Ctx := { W := c.world, colls := c.colls, outer := c.outer }
   let rec isSortTop : Shape → Bool
     | .boxed _ | .refc _ => true
     | .poisonable _ s => isSortTop s
@@ -686,7 +691,7 @@ def checkC01 (c : Case) (t : Transcript) : Option String := Id.run do
 observes the value of the most recent write to that same lock (whatever collection, position
 or API it went through), and a scoped closure runs only while all its locks are held. -/
 def checkC02 (c : Case) (t : Transcript) : Option String := Id.run do
-  let C : Ctx := { W := c.world, colls := c.colls }
+  let C : Ctx := { W := c.world, colls := c.colls, outer := c.outer }
   let mut st : HSt := {}
   let mut vals : List (LockId × Nat) := []
   let segs := segments t.evs
